@@ -102,7 +102,7 @@ pub fn run(tier: Tier) -> i32 {
     // one process per scenario: a deadlock found by loom ends in a non-unwinding panic
     let mut all = vec![];
     let mut iterations = 0;
-    for scenario in ["updates", "bmca", "takeover"] {
+    for scenario in ["updates", "bmca", "takeover", "regain"] {
         let out = match std::process::Command::new("/verif/target/loom/release/loomck").arg(bound.to_string()).arg(scenario).output() {
             Ok(o) => o,
             Err(e) => {
